@@ -15,7 +15,6 @@
 package cjk
 
 import (
-	"bytes"
 	"container/ring"
 	"unicode/utf8"
 
@@ -45,10 +44,10 @@ func (s *CJKBigramFilter) Filter(input analysis.TokenStream) analysis.TokenStrea
 
 	for _, tokout := range input {
 		if tokout.Type == analysis.Ideographic {
-			runes := bytes.Runes(tokout.Term)
 			sofar := 0
-			for _, run := range runes {
-				rlen := utf8.RuneLen(run)
+			for sofar < len(tokout.Term) {
+				// width of the rune as encoded in the term (1 for an invalid byte)
+				_, rlen := utf8.DecodeRune(tokout.Term[sofar:])
 				token := &analysis.Token{
 					Term:     tokout.Term[sofar : sofar+rlen],
 					Start:    tokout.Start + sofar,
